@@ -2,7 +2,7 @@
 # usage: seedeval.sh <prop> <patch.diff> : applies the change to /repo, runs the quick check, restores /repo
 prop=$1; patch=$2
 cd /repo || exit 2
-if [ -n "$(git status --porcelain)" ]; then echo "repo not clean"; exit 2; fi
+if [ -n "$(git status --porcelain)" ]; then echo "repo not clean (commit contract edits first: this script runs git checkout)"; exit 2; fi
 git apply "$patch" || { echo "patch does not apply"; exit 2; }
 cd /verif && VERIF_WORK=/tmp/seedwork_$prop VERIF_EVIDENCE_DIR=/tmp/seedev_$prop ./check $prop quick 2>&1 | grep -v WARN | tail -8
 rc=${PIPESTATUS[0]}
